@@ -282,6 +282,22 @@ CHECKS['C07']['note'] += (" Instruction text of wells is opaque but carries a pr
                           "text derives from its own.")
 CHECKS['C19']['note'] += (" Plate operations: obligation `plate.transfer/instructions-home` (text provenance) on the same "
                           "plate cases as C07 — no well's instructions are replaced by another container's text.")
+EXTRA = {
+    'C03': " Recipe steps: the simulation clauses of bake (`resolve`, `same-op`, `store`) are re-discharged here; `raises[refuse-unreachable]`: a returned dilution lies between the diluent's and the stock's concentration; the stored volume after every operation (`ensures[vol]`) is re-discharged because capacity checks read it.",
+    'C08': " `store[results-unedited]`: bake files the very objects the direct operation returned; `safe[*]`: no exception the eager fold does not raise.",
+    'C10': " Plate observers (get_volumes / get_moles / get_substances) are under contract cell by cell on 2x3 plates with contents of arbitrary size; `observers[has_liquid/*]`: the arguments have been asked before the operation and every result answers for its own contents.",
+    'C11': " Plate.fill_to / PlateSlicer.fill_to: `plate.fill_to/per-well`, `locality`, `dispatch` on the plate geometries of C07.",
+    'C14': " `ensures[same-on-reuse]` (functools.cache modelled faithfully: the same text parsed twice means the same), `ensures[config-change]` ('%w/v' after default_weight_volume_units changed), and the unit conversion table re-discharged ('interchangeable everywhere a quantity is accepted').",
+    'C15': " Flows are per well for plates, also for discarding steps and for transfers inside one plate; `filed-under-own-name` (the trackers find objects by name). Obligations the solvers leave undecided are decided by a native run of the replay scenario (refutation only).",
+    'C17': " Recipe remove steps: the simulation clauses of bake for the remove kinds are re-discharged here.",
+    'C19': " `bounded[plate-fill-step-text]`: the per-well wording of a plate fill_to step (through collapse()) is checked natively, labelled bounded.",
+}
+for _pid, _t in EXTRA.items():
+    CHECKS[_pid]['note'] += _t
+DEPS = (" Modular dependencies are re-discharged under this property's name (a change inside a callee is reported under every "
+        "property decided modulo its contract): the unit conversion table, and for C05/C12 the contracts of Container._transfer and __init__.")
+for _pid in ('C02', 'C03', 'C05', 'C09', 'C10', 'C11', 'C12', 'C14', 'C15', 'C17', 'C19'):
+    CHECKS[_pid]['note'] += DEPS
 THOROUGH = (" Thorough tier additionally: Lean re-check of the Sigma lemmas (where assumed), the engine-vs-CPython "
             "differential over pyvc/diff_corpus.py, and the larger case tables / bounds stated in the evidence.")
 for _c in CHECKS.values():
